@@ -1119,6 +1119,10 @@ var NoPositionalConstructor = func(c px.Context, args []px.Value) px.Value {
 var nopCtorPtr = reflect.ValueOf(NoPositionalConstructor).Pointer()
 
 func (t *objectType) createNewFunction(c px.Context) {
+	if t.attrInfo == nil {
+		// The default Object type (or a type that has not been resolved) has nothing to construct
+		return
+	}
 	pi := t.AttributesInfo()
 
 	var functions []px.DispatchFunction
